@@ -6,3 +6,24 @@ for d in seeded/*/; do
   out=$(tools/seedcheck.sh /verif/$d/patch.diff $prop 2>&1)
   if echo "$out" | grep -q "rc=1"; then echo "$id caught by $prop"; else echo "$id MISSED by $prop: $(echo "$out" | head -2 | tr '\n' ' ' | cut -c1-200)"; fi
 done
+# own regression mutants: <file> <check>
+while read f id; do
+  out=$(tools/seedcheck.sh /verif/mutants/$f $id 2>&1)
+  if echo "$out" | grep -q "rc=1"; then echo "mutant $f caught by $id"; else echo "mutant $f MISSED by $id: $(echo "$out" | head -2 | tr '\n' ' ' | cut -c1-200)"; fi
+done <<'LIST'
+c15_shared_scratch_slice.diff C15
+c01_accept_nil_zero_entry.diff C01
+c01_duplicate_key_newest_rejected.diff C01
+c02_update_le.diff C02
+c02_delete_unknown_emits.diff C02
+c13_ticker_blocking_drain.diff C13
+c10_blocking_outch_send.diff C10
+c08_ready_before_sync.diff C08
+c06_forget_filter_assignment.diff C06
+c04_watcher_outch_renewed_on_retry.diff C04
+c12_session_stop_without_cancel.diff C12
+c14_later_list_errors_ignored.diff C14
+c11_monitor_close_does_not_close_subscription.diff C11
+c09_ingresspods_leaks_intermediate_join.diff C09
+c20_typed_monitor_passes_nil_for_foreign.diff C20
+LIST
